@@ -157,6 +157,15 @@ pub fn gen_tree(t: &mut Tape) -> Tree {
     Tree { files, order, root, hostile, has_dotdot, depth2, conditional }
 }
 
+/// some inclusion of these entries (also inside conditional blocks) satisfies the predicate
+fn any_include(entries: &[Entry], pred: &dyn Fn(&str) -> bool) -> bool {
+    entries.iter().any(|e| match e {
+        Entry::Include(p) => pred(p),
+        Entry::Cond { taken, dead, .. } => any_include(taken, pred) || any_include(dead, pred),
+        Entry::Marker(_) => false,
+    })
+}
+
 fn tree_json(tr: &Tree) -> serde_json::Value {
     json!({"root": tr.root, "files": tr.order.iter().map(|n| json!({"name": n, "text": file_text(&tr.files[n])})).collect::<Vec<_>>()})
 }
@@ -597,7 +606,7 @@ impl Property for C14 {
                     "real|root-spelled-dot-slash|path-out-of-project-accepted".to_string()
                 } else if dot_slash
                     && (c == "real|wrong-expansion" || c == "real|valid-tree-rejected")
-                    && tr.files.values().any(|f| f.entries.iter().any(|e| matches!(e, Entry::Include(p) if p.replace('\\', "/").starts_with('/') || p.contains(".."))))
+                    && tr.files.values().any(|f| any_include(&f.entries, &|p| p.replace('\\', "/").starts_with('/') || p.contains("..")))
                 {
                     // same root cause: names keep the `./`, names reached through `/x` or `..` do not - one file,
                     // two names, so #once and cycle detection see two files
